@@ -429,7 +429,7 @@ def file_case(rec, n):
                 os.unlink(p)
 
 
-def run_shard(rec, shard, nshards):
+def _run_shard_workload(rec, shard, nshards):
     import time
     _wd[0] = rec.tmpdir()
     rec.deadline = time.time() + CAP[rec.tier]
@@ -506,3 +506,14 @@ def canaries(rec):
                                                                    real("#b", b)], 16), 16,
                                                                [("#a", a + b"\x01" * 3), ("#b", b)])[0])))
     return out
+
+
+FAULT_PLANE_OPS = ('cache-payloads',)
+
+
+def run_shard(rec, shard, nshards):
+    _run_shard_workload(rec, shard, nshards)
+    if shard == 5 % nshards:
+        # complete enumeration of the single file-boundary faults of this property's operations (faultplane.py)
+        from . import faultplane
+        faultplane.run(rec, ID, FAULT_PLANE_OPS)
